@@ -329,6 +329,12 @@ def run(ctx):
         wsgi_stream(ctx, events, [0] * n, cs, ping=0.01, consumer_delay=0.035)
         ctx.mon("slow-consumer")
         ctx.case(("wsgi-slow", repr(events), cs))
+    # ... and a producer that is far ahead with a lot of text (more than 64 KiB waiting at any time)
+    for i in range(ctx.scale(2, 12)):
+        events = [{"data": chr(97 + j % 26) * 9000, "id": str(j)} for j in range(24)]
+        wsgi_stream(ctx, events, [0] * len(events), "utf-8", ping=5, consumer_delay=0.004)
+        ctx.mon("slow-consumer")
+        ctx.case(("wsgi-slow-big", i, ctx.shard))
 
 
 def _share(case):
